@@ -640,6 +640,21 @@ def t_one_shot_iterators():
     k = (list(lst), list(lst))
     return (a, b, c, d, e, f, first, rest, i, j, k)
 
+def t_iterator_truthiness_and_len():
+    g = (x for x in [])
+    z = zip([], [])
+    m = map(str, [])
+    out = [bool(g), bool(z), bool(m), bool(iter([])), bool([]), bool(())]
+    try:
+        len(x for x in [1])
+        out.append('len ok')
+    except TypeError:
+        out.append('no len')
+    def f(kw=()):
+        return 'has' if kw else 'empty'
+    out.append((f(), f([]), f(iter([])), f(zip([], []))))
+    return out
+
 def t_ordereddict_counter():
     from collections import OrderedDict
     od = OrderedDict([('b', 1), ('a', 2)])
